@@ -296,14 +296,14 @@ def nameStored : NameApi → Name → Option Name
   | .vsname, n | .vsclass, n => some (n.take VSNAMELENMAX)          -- VSsetname / VSsetclass: fixed char[65], truncate
   | .field, n => some (n.take FIELDNAMELENMAX)                       -- scanattrs: truncate to FIELDNAMELENMAX
   | .vgname, n | .vgclass, n | .grname, n => some n                  -- Vsetname / Vsetclass / GRcreate: malloc(strlen + 1)
-  | .sdname, n | .dimname, n | .attrname, n =>                       -- NC_new_string: count > H4_MAX_NC_NAME refused
+  | .sdname, n | .dimname, n =>                                      -- NC_new_string: count > H4_MAX_NC_NAME refused
     if n.length > H4_MAX_NC_NAME then none else some n
+  | .attrname, n =>                                                  -- SDsetattr: the attribute becomes a vdata NAMED by VSsetname;
+    if n.length > VSNAMELENMAX then none else some n                 --   a name that vdata name cannot hold is refused
 
 /-- what is read back after the file was closed and reopened -/
 def nameReopened : NameApi → Name → Option Name
   | .vgname, n | .vgclass, n | .grname, n => some (n.take (n.length % 65536))   -- vpackvg: `(uint16)strlen`
-  | .attrname, n =>                                                              -- the attribute is a vdata NAMED by VSsetname
-    if n.length > H4_MAX_NC_NAME then none else some (n.take VSNAMELENMAX)
   | a, n => nameStored a n
 
 /-! ## Part 5: SD rank and the open-file table -/
